@@ -306,6 +306,18 @@ def c20_webc():
         return True
 
 
+def c20_none_argument():
+    try:
+        k = _K()
+        log = []
+        k['rec'] = lambda x: log.append(x) or 1
+        k('h::{x;rec(y);1}')
+        k['h'](1, None)
+        return len(log) != 1
+    except Exception:
+        return True
+
+
 PROBES = {
     "C01/split-near-equal": c01_split, "C01/rotate-matrix-flattens": c01_rotate, "C01/reverse-atom-raises": c01_reverse_atom,
     "C01/format-list-recursion": c01_format_list, "C01/first-of-string-is-string": c01_first_string, "C01/max-nested": c01_max_nested,
@@ -324,7 +336,7 @@ PROBES = {
     "C12/empty-comment-marker-hangs": c12_comment_hang,
     "C13/undefined-identity-through-pickle": c13_undefined_identity,
     "C17/fsync-before-flush": c17_fsync_before_data,
-    "C20/webc-ignores-plain-handle": c20_webc,
+    "C20/webc-ignores-plain-handle": c20_webc, "C20/ws-null-message-not-delivered": c20_none_argument,
 }
 
 
